@@ -17,8 +17,10 @@
 (* replay, i.e. along the executions the code really took, on universes    *)
 (* far beyond what exhaustive exploration of all decision orders reaches.  *)
 (*                                                                         *)
-(* Runs[i] belongs to Cases[i] (single-solve cases only):                  *)
-(*   [id, dec : Seq(solvable), kind, sol : Seq(solvable)]                  *)
+(* Runs[i] belongs to Cases[i]; a case may be a history of several solves   *)
+(* on ONE solver (the cache - hint bits, fetched dependency records - is    *)
+(* kept, LazyCdclW!SolveAgain):                                             *)
+(*   [id, solves : Seq([dec : Seq(solvable), kind, sol : Seq(solvable)])]  *)
 (***************************************************************************)
 EXTENDS LazyCdclW, TLC
 
@@ -27,7 +29,7 @@ Runs == ndJsonDeserialize(IOEnv.RUNS)
 VARIABLE dk            \* index of the next recorded decision
 tvars == <<ci, sk, st, dk>>
 
-R == Runs[ci]
+R == Runs[ci].solves[sk]
 
 TInit == Init /\ dk = 1 /\ Runs[ci].id = Cases[ci].id
 
@@ -48,20 +50,22 @@ TDecide ==
           IN /\ st' = [Push(st, c, TRUE, st.lvl + 1, i) EXCEPT !.lvl = st.lvl + 1, !.pc = "proplearn"]
              /\ dk' = dk + 1
      ELSE \* the code decided something the model does not offer here (or stopped deciding)
-          /\ PrintT("DIVERGE|" \o ToString(Cases[ci].id) \o "|" \o ToString(dk) \o "|"
+          /\ PrintT("DIVERGE|" \o ToString(Cases[ci].id) \o "." \o ToString(sk) \o "|" \o ToString(dk) \o "|"
                     \o (IF dk > Len(R.dec) THEN "none" ELSE ToString(R.dec[dk])) \o "|"
                     \o JoinI(SetToSeq({FirstOpenCand(st, i) : i \in Choices(st)})))
           /\ st' = [st EXCEPT !.pc = "done", !.outcome = [kind |-> "diverged"]]
           /\ UNCHANGED dk
 
-TNext == /\ \/ (Install \/ PropTop \/ PropLearn \/ Check \/ NextSoft) /\ UNCHANGED dk
-            \/ TDecide
-         /\ UNCHANGED <<ci, sk>>
+TNext == \/ /\ \/ (Install \/ PropTop \/ PropLearn \/ Check \/ NextSoft) /\ UNCHANGED dk
+               \/ TDecide
+            /\ UNCHANGED <<ci, sk>>
+         \* the next solve of the history on the same solver (not after a divergence)
+         \/ st.outcome.kind # "diverged" /\ SolveAgain /\ dk' = 1
 
 TSpec == TInit /\ [][TNext]_tvars
 
 \* one line per finished replay; the driver compares it with what the code returned
-TReport == Done => PrintT("REPLAYED|" \o ToString(Cases[ci].id) \o "|" \o st.outcome.kind \o "|"
+TReport == Done => PrintT("REPLAYED|" \o ToString(Cases[ci].id) \o "." \o ToString(sk) \o "|" \o st.outcome.kind \o "|"
                           \o (IF st.outcome.kind = "sat" THEN JoinI(SetToSeq(st.outcome.sol)) ELSE "")
                           \o "|" \o ToString(st.nlearnt) \o "|" \o ToString(st.nrestart) \o "|" \o ToString(dk - 1)
                           \o "|" \o (IF st.outcome.kind = "unsat" THEN JoinI(SetToSeq(st.outcome.ids)) ELSE ""))
